@@ -348,9 +348,10 @@ class Generator:
         single-file Verus) is emitted as an inherent method `<Trait>__<method>` of the Self type:
           * impl header `impl<G> Trait<..> for T`  ->  `impl<G> T`
           * the fn name `m` in the signature      ->  `Trait__m`
-          * `[extcall=m:New,recv.m:New2]`: a call token `m` that is preceded by `.` or `::` and followed by `(` (for the
-            `recv.m` form additionally preceded by the token `recv`) is renamed; used for calls that rustc resolves
-            to another method of an external trait (e.g. `self.div_floor(&g)` -> `self.Integer__div_floor(&g)`).
+          * `[extcall=m:New,recv.m:New2,Trait::m:New3]`: a call token `m` that is preceded by `.` or `::` and followed by
+            `(` (for the `recv.m` form additionally preceded by the token `recv`) is renamed; the form `Trait::m`
+            rewrites the path call `Trait :: m (` to `Self :: New3 (`.  Used for calls that rustc resolves to
+            another method of an external trait (e.g. `self.div_floor(&g)` -> `self.Integer__div_floor(&g)`).
         Nothing else changes; calls that resolve to inherent methods keep their text."""
         if impl is None or 'for' not in impl.split(' '):
             raise R.Unsupported('ext_trait on a fn that is not in a trait impl')
@@ -377,11 +378,19 @@ class Generator:
         if extcall:
             pats = {}
             for kv in extcall.split(','):
-                k, v = kv.split(':')
-                pats[tuple(k.split('.'))] = v
+                k, v = kv.rsplit(':', 1)
+                if '::' in k:
+                    pats[('::',) + tuple(k.split('::'))] = v
+                else:
+                    pats[tuple(k.split('.'))] = v
             out = []
             n = len(body)
             for j, x in enumerate(body):
+                if j > 1 and j + 1 < n and body[j + 1] == '(' and body[j - 1] == '::' and ('::', body[j - 2], x) in pats:
+                    # `Trait :: m (`  ->  `Self :: New (`   (option form `Trait::m:New`)
+                    out[-2:] = ['Self', '::', pats[('::', body[j - 2], x)]]
+                    log['R17c'] = log.get('R17c', 0) + 1
+                    continue
                 if j > 0 and j + 1 < n and body[j + 1] == '(' and body[j - 1] in ('.', '::'):
                     if j > 1 and body[j - 1] == '.' and (body[j - 2], x) in pats:
                         out.append(pats[(body[j - 2], x)])
